@@ -105,7 +105,7 @@ prop(
           "named absolutely, ./x, sub/dir/x, ../d/x or bare through PATH; parent cwd shallow / ~1000 / ~3900 / beyond 4096 bytes. "
           "Non-trivial: an argument that is empty or has whitespace/quote/backslash/'='/non-ASCII bytes, or extend-mode with extras, or a "
           "relative program with a working directory, or cwd beyond PATH_MAX. Distinct: hash of all strings and the kind selectors."),
-    essential=dict(quick=["odd-argument", "extend-with-extras", "env-empty", "relative-program+working-directory", "decoy-planted", "cwd-beyond-PATH_MAX", "PATH-search", "many-arguments"]),
+    essential=dict(quick=["odd-argument", "extend-with-extras", "env-empty", "relative-program+working-directory", "decoy-planted", "cwd-beyond-PATH_MAX", "PATH-search", "many-arguments", "two-launches-in-one-process"]),
     assumptions=[
         "PATH-searched programs: PATH is among the inherited parent entries and not overridden by extras (which PATH counts is undocumented)",
         "beyond PATH_MAX only a clean outcome (success, or a negative return, no memory error, ledger clean) is required",
